@@ -343,27 +343,53 @@ pub fn dgram(rng: &mut Rng, r: &mut Runner, maxops: usize) {
                         }
                     }
                     Some(w) => {
-                        let was_empty = shadow_in.iter().map(|d| d.0).sum::<u64>() == 0;
-                        while shadow_in.iter().map(|d| d.0).sum::<u64>() + len > w {
-                            shadow_in.pop_front(); // the property: the oldest are dropped first
-                            evicted = true;
+                        // The property (C16 "may be dropped ... when a buffer overflows the oldest are dropped
+                        // first", C06 "never exceeds the configured receive windows", C03 "grow memory without
+                        // bound") leaves the accounting of the buffer to the implementation; it demands:
+                        //  (a) the queue afterwards is (a suffix of the old queue) ++ [d]: only the OLDEST go,
+                        //      nothing is reordered, duplicated or invented, the new datagram is intact;
+                        //  (b) the payload bytes buffered stay within the window;
+                        //  (c) the NUMBER of buffered datagrams is bounded by the configuration (an entry costs
+                        //      memory also when it is empty): at most w entries, recv_buffered <= w (audit SD-9);
+                        //  (d) nothing is dropped unless the buffer is full: with one datagram more kept, bytes
+                        //      plus entries would exceed the window (any charge of at most len + 1 per entry
+                        //      is a legitimate accounting; the exact rule is compared with the model, T2);
+                        //  (e) the first datagram into an empty queue reports was_empty (else no wake-up).
+                        let old: Vec<D> = shadow_in.iter().copied().collect();
+                        let k = (old.len() + 1).saturating_sub(now.inc.len());
+                        if w == 0 && now.inc == old {
+                            // a zero-sized buffer holds nothing: the (empty) datagram is dropped, which the property
+                            // allows ("datagrams may be dropped"); it must not be reported as buffered first
+                            if res != "ok false" {
+                                r.oracle_fail(&format!("key=dgram-received-result received {len} window 0 not buffered -> {res}"));
+                            }
+                        } else if now.inc.last() != Some(&d) || k > old.len() || now.inc[..now.inc.len() - 1] != old[k..] {
+                            r.oracle_fail(&format!("key=dgram-recv-fifo receive queue after received {len} (window {w}) is not (suffix of the old queue) ++ [d]"));
+                        } else {
+                            if k > 0 {
+                                evicted = true;
+                                let kept_one_more: u64 = sum(&old[k - 1..]) + len + (old.len() - (k - 1)) as u64 + 1;
+                                if kept_one_more <= w {
+                                    r.oracle_fail(&format!("key=dgram-recv-drop-minimal received {len} window {w}: {k} datagram(s) dropped although the buffer was not full"));
+                                }
+                            }
+                            shadow_in = now.inc.iter().copied().collect();
                         }
-                        shadow_in.push_back(d);
-                        if res != format!("ok {was_empty}") {
-                            r.oracle_fail(&format!("key=dgram-received-result received {len} window {w} -> {res}"));
+                        if !res.starts_with("ok ") || (old.is_empty() && !now.inc.is_empty() && res != "ok true") {
+                            r.oracle_fail(&format!("key=dgram-received-result received {len} window {w} queue {} -> {res}", old.len()));
                         }
-                        if now.buffered > w {
+                        // the bounds are claimed for what a call BUFFERS under its window (the generator also changes
+                        // the window mid-run, which a connection cannot)
+                        let buffered_now = !(w == 0 && now.inc == old);
+                        if buffered_now && sum(&now.inc) > w {
                             r.oracle_fail("key=dgram-recv-window buffered bytes exceed the receive window");
                         }
-                        // C06 "buffers a bounded amount" / C03 "grow memory without bound" (audit SD-9): the
-                        // configuration grants `w` BYTES; a queue with more entries than that (every entry costs
-                        // memory, also an empty datagram) is not bounded by the configuration any more
-                        if now.inc.len() as u64 > w.max(1) {
+                        if buffered_now && (now.inc.len() as u64 > w || now.buffered > w) {
                             r.oracle_fail(&format!("key=dgram-incoming-count-unbounded {} datagrams queued for the application with a receive buffer of {w} bytes (zero-length DATAGRAM frames are never evicted)", now.inc.len()));
                         }
                     }
                 }
-                if now.inc.iter().copied().collect::<VecDeque<D>>() != shadow_in || now.buffered != sum(&now.inc) {
+                if now.inc.iter().copied().collect::<VecDeque<D>>() != shadow_in {
                     r.oracle_fail("key=dgram-recv-fifo receive queue is not the FIFO of accepted datagrams minus the oldest");
                 }
             }
